@@ -9,6 +9,7 @@ import (
 	"bytes"
 	"fmt"
 	"reflect"
+	"sort"
 	"strings"
 	"sync"
 	"testing"
@@ -138,7 +139,11 @@ func ClassifyScope(c ScopeCase) ev.Class {
 
 func CheckScope(c ScopeCase) *ev.Failure {
 	var f *ev.Failure
-	ok, pn := within(30*time.Second, func() { f = checkScopeInner(c) })
+	ok, pn := within(30*time.Second, func() {
+		if f = checkScopeInner(c); f == nil {
+			f = checkScopeShared(c)
+		}
+	})
 	if !ok {
 		return ev.Failf("hang:scope", "%s did not finish in 30s", c.Name)
 	}
@@ -298,6 +303,135 @@ func checkScopeInner(c ScopeCase) *ev.Failure {
 		if g := trace.snapshot(); strings.Join(g, " ") != strings.Join(want, " ") {
 			return ev.Failf("middleware-order:scope", "%s: middleware trace differs\n   want: %v\n   got : %v%s", what, want, g, ctxText())
 		}
+	}
+	return nil
+}
+
+// checkScopeShared: one publisher used by several goroutines at once with different prefix
+// variable values (every message goes to the topic of its own values), and one subscriber object
+// subscribing the same operation twice with different handlers (every delivery reaches the handler
+// of its own subscription).
+func checkScopeShared(c ScopeCase) *ev.Failure {
+	sb := Scopes[c.Scope]
+	ob := sb.Ops[c.Op]
+	p := Programs[sb.Prog].Model
+	what := fmt.Sprintf("scope operation %s over %s", c.Name, c.Proto)
+	ctxText := func() string { return "\n" + programText(sb.Prog) }
+	broker := &memBroker{subs: map[string][]frugal.FAsyncCallback{}}
+	pf := frugal.NewFProtocolFactory(ProtoFactory(c.Proto))
+	provider := frugal.NewFScopeProvider(memPubFactory{broker}, memSubFactory{broker}, pf)
+	pub := sb.NewPublisher(provider)
+	sub := sb.NewSubscriber(provider)
+	if o := reflect.ValueOf(pub).MethodByName("Open"); o.IsValid() {
+		o.Call(nil)
+	}
+	sm := reflect.ValueOf(sub).MethodByName(ob.SubscribeName)
+	pm := reflect.ValueOf(pub).MethodByName(ob.PublishName)
+	st, pt := sm.Type(), pm.Type()
+	payload, err := FromTree(p, ob.Op.Type, pt.In(len(c.Vars)+1), c.Payload)
+	if err != nil {
+		return nil
+	}
+	varsOf := func(tag string) []string {
+		var out []string
+		for i := range c.Vars {
+			out = append(out, fmt.Sprintf("%s%d", tag, i))
+		}
+		return out
+	}
+	// two subscriptions of one subscriber object, each with its own handler
+	ht := st.In(len(c.Vars))
+	var mu sync.Mutex
+	counts := map[string]int{}
+	subscribe := func(tag string) *ev.Failure {
+		handler := reflect.MakeFunc(ht, func(args []reflect.Value) []reflect.Value {
+			mu.Lock()
+			counts[tag]++
+			mu.Unlock()
+			return nil
+		})
+		var in []reflect.Value
+		for _, v := range varsOf(tag) {
+			in = append(in, reflect.ValueOf(v))
+		}
+		res := sm.Call(append(in, handler))
+		if e := res[len(res)-1]; !e.IsNil() {
+			return ev.Failf("subscribe-error", "%s: second subscription: %v%s", what, e.Interface(), ctxText())
+		}
+		return nil
+	}
+	publish := func(tag string) error {
+		in := []reflect.Value{reflect.ValueOf(frugal.NewFContext("cid-" + tag))}
+		for _, v := range varsOf(tag) {
+			in = append(in, reflect.ValueOf(v))
+		}
+		res := pm.Call(append(in, payload))
+		if e := res[len(res)-1]; !e.IsNil() {
+			return e.Interface().(error)
+		}
+		return nil
+	}
+	for _, tag := range []string{"first", "second"} {
+		if f := subscribe(tag); f != nil {
+			return f
+		}
+	}
+	if err := publish("second"); err != nil {
+		return ev.Failf("publish-error", "%s: %v%s", what, err, ctxText())
+	}
+	mu.Lock()
+	first, second := counts["first"], counts["second"]
+	mu.Unlock()
+	wantFirst := 0
+	if len(c.Vars) == 0 {
+		wantFirst = 1 // both subscriptions are on the same topic
+	}
+	if second != 1 || first != wantFirst {
+		return ev.Failf("delivery-to-wrong-subscription", "%s: one subscriber object subscribed twice (handlers 'first' and 'second'%s); a message for the second subscription invoked first x%d, second x%d%s",
+			what, map[bool]string{true: ", different prefix values", false: ", same topic"}[len(c.Vars) > 0], first, second, ctxText())
+	}
+	if len(c.Vars) == 0 {
+		return nil
+	}
+	// one publisher, concurrent publishes with different prefix values
+	broker.mu.Lock()
+	broker.published = nil
+	subTopic := broker.subTopics[0] // <prefix with first0..>.<Scope>.<op>
+	broker.mu.Unlock()
+	const n = 12
+	var wg sync.WaitGroup
+	start := make(chan struct{})
+	errs := make([]error, n)
+	for i := 0; i < n; i++ {
+		wg.Add(1)
+		go func(i int) {
+			defer wg.Done()
+			<-start
+			errs[i] = publish(fmt.Sprintf("g%dv", i))
+		}(i)
+	}
+	close(start)
+	wg.Wait()
+	for _, e := range errs {
+		if e != nil {
+			return ev.Failf("publish-error", "%s: concurrent publish: %v%s", what, e, ctxText())
+		}
+	}
+	var want []string
+	for i := 0; i < n; i++ {
+		tp := subTopic
+		for j := range c.Vars {
+			tp = strings.Replace(tp, fmt.Sprintf("first%d", j), fmt.Sprintf("g%dv%d", i, j), 1)
+		}
+		want = append(want, tp)
+	}
+	broker.mu.Lock()
+	gotTopics := append([]string{}, broker.published...)
+	broker.mu.Unlock()
+	sort.Strings(want)
+	sort.Strings(gotTopics)
+	if strings.Join(want, " ") != strings.Join(gotTopics, " ") {
+		return ev.Failf("concurrent-publish-topics", "%s: %d concurrent publishes on one publisher, each with its own prefix values\n   want topics: %v\n   got topics : %v%s", what, n, want, gotTopics, ctxText())
 	}
 	return nil
 }
